@@ -30,6 +30,7 @@ def run(ctx, R, tier):
     pickup_order(F, R, rule='B.C17.pickup-order', which=('renderer',))
     # 'equals the mapping of the modulator's current value': nothing runs on a cached copy of a parameter's value
     c06.param_cache(F, R, rule='B.C17.param-cache')
+    c06.accumulators(F, R, rule='B.C17.accumulate')
     from ..enginea import run_singular_only
     run_singular_only(R, F, lambda fn: 'value::Mapping' in fn or 'modulator::' in fn, floor=2)
 
